@@ -1,3 +1,5 @@
-//! C02 — not built yet.
+//! C02 — objective preservation; shares the generator and correspondence of C01, different oracle question.
 use crate::case::Case;
-pub fn generate(_seed: u64, _n: usize, _thorough: bool, _corpus: Option<&str>) -> Vec<Case> { vec![] }
+pub fn generate(seed: u64, n: usize, thorough: bool, corpus: Option<&str>) -> Vec<Case> {
+    crate::props::c01::generate_for("c02", seed.wrapping_add(1000), n, thorough, corpus)
+}
